@@ -13,7 +13,7 @@ import numpy as np
 
 from common import (run_tlc, tlc_must_pass, printed_json, validate_events, to_words, Infra, isolated,
                     isolated_many)
-from lib import Lib, Buf, FFT64, NTT120, MASK_NONE, MASK_GENERIC
+from lib import Lib, Buf, FFT64, NTT120, MASK_NONE, MASK_GENERIC, ro
 
 LEVEL = "model_checking"
 
@@ -45,12 +45,13 @@ def norm_call(L, mod, variant, n, k, A, rsz, alias, pad, off, fill, rng, rangesp
         res_sl = n + (pad if variant != "vec" else (pad * 2 + 1))
         rbuf = Buf(8 * ((rsz - 1) * res_sl + n) if rsz else 0, off=off, fill=fill)
     a_before = abuf.snapshot()
-    if variant == "vec":
-        L.call("vec_znx_normalize_base2k", mod, k, rbuf, rsz, res_sl, abuf, asz, a_sl, tmp)
-    elif variant == "big":
-        L.call("vec_znx_big_normalize_base2k", mod, k, rbuf, rsz, res_sl, abuf, asz, tmp)
-    else:
-        L.call("vec_znx_big_range_normalize_base2k", mod, k, rbuf, rsz, res_sl, abuf, b, e, st, tmp)
+    with ro(*([] if alias else [abuf])):
+        if variant == "vec":
+            L.call("vec_znx_normalize_base2k", mod, k, rbuf, rsz, res_sl, abuf, asz, a_sl, tmp)
+        elif variant == "big":
+            L.call("vec_znx_big_normalize_base2k", mod, k, rbuf, rsz, res_sl, abuf, asz, tmp)
+        else:
+            L.call("vec_znx_big_range_normalize_base2k", mod, k, rbuf, rsz, res_sl, abuf, b, e, st, tmp)
     if not (tmp.canaries_ok() and abuf.canaries_ok() and rbuf.canaries_ok()):
         return None, "write outside a buffer (canary)"
     rv = rbuf.i64
